@@ -100,7 +100,12 @@ class ConstProgGen(gen.Gen):
         if d > 0 and self.size_consts and self.chance(0.25) and not first_enum_field:
             name, n = self.pick(self.size_consts)
             if n >= 1:
-                return TArrC(self.rand_scalar(), n, name)
+                elem = self.rand_scalar()
+                if self.chance(0.3):   # [[T; C2]; C1]: the element type needs the constants too
+                    name2, n2 = self.pick(self.size_consts)
+                    if n2 >= 1:
+                        elem = TArrC(elem, n2, name2)
+                return TArrC(elem, n, name)
         return super().rand_type(d, first_enum_field)
 
     def construct(self, ty, d):
@@ -245,6 +250,21 @@ def sizezero_program(seed):
     return prog, cg
 
 
+def zero_text(ty):
+    """a literal text of type ty (all zero); None for types this printer does not cover"""
+    if isinstance(ty, TBool):
+        return "false"
+    if isinstance(ty, TInt):
+        return "0" + ty.name
+    if isinstance(ty, (TArr, TArrC)):
+        e = zero_text(ty.elem)
+        return None if e is None or ty.n < 1 else "[" + ", ".join([e] * ty.n) + "]"
+    if isinstance(ty, TTup):
+        es = [zero_text(t) for t in ty.elems]
+        return None if any(e is None for e in es) or len(es) < 2 else "(" + ", ".join(es) + ")"
+    return None
+
+
 def substituted_source(prog):
     """the twin program: every constant replaced by its value, const declarations removed"""
     lang.SUBST = {n: (t, v) for n, t, v in prog._const_values}
@@ -300,6 +320,14 @@ def check_one(drv, seed, cap, st, out, kind=None):
                 if list(ca.inputs) != list(cb.inputs) or len(ca.outputs) != len(cb.outputs):
                     out["violations"].append({"key": "twin-shape", "text": "parties/outputs differ from the substituted twin: %s/%d vs %s/%d" % (ca.inputs, len(ca.outputs), cb.inputs, len(cb.outputs)), "replay": {**rep, "twin": twin_src}})
                 else:
+                    # literal-level argument API: the evaluator must accept / refuse the same literal texts for P with
+                    # constants and for its substituted twin, and print the same result (native differential run)
+                    texts = [zero_text(t) for _, t, _ in prog.fn("main").params]
+                    if all(x is not None for x in texts):
+                        la, lb = drv.evallit(cid, texts), drv.evallit(rt[1], texts)
+                        out["literal_runs"] += 1
+                        if la != lb:
+                            out["violations"].append({"key": "const-literal-args", "text": "Evaluator::parse_literal / run on %s: %s with constants vs %s for the substituted twin" % (texts, la, lb), "replay": {**rep, "twin": twin_src, "literals": texts}})
                     inputs = res["_inputs"]
                     oa, ob = res["_outs"], enc.encode_ssa(cb, inputs)
                     sel = [0] + list(range(1, 33)) + list(range(enc.PANIC_BITS, len(oa)))
@@ -356,7 +384,7 @@ def check_one(drv, seed, cap, st, out, kind=None):
 
 def work(item, drv):
     st = solve.Stats()
-    out = {"item": item, "violations": [], "nonrepro": [], "programs": 0, "compiled": 0, "twins": 0, "error_trials": 0, "rejected": [], "samples": []}
+    out = {"item": item, "violations": [], "nonrepro": [], "programs": 0, "compiled": 0, "twins": 0, "error_trials": 0, "literal_runs": 0, "rejected": [], "samples": []}
     for s in item["seeds"]:
         check_one(drv, s, item["cap"], st, out, item.get("kind"))
     out["stats"] = st.as_dict()
@@ -366,7 +394,7 @@ def work(item, drv):
 def summarize(ctx, items, results):
     st = solve.Stats()
     viol, errors, samples, rejected = [], [], [], []
-    tot = {"programs": 0, "compiled": 0, "twins": 0, "error_trials": 0}
+    tot = {"programs": 0, "compiled": 0, "twins": 0, "error_trials": 0, "literal_runs": 0}
     for r in results:
         if "error" in r:
             errors.append("worker failure on %s: %s %s" % (str(r["item"])[:100], r["error"], r.get("trace", "")[-600:]))
@@ -387,7 +415,8 @@ def summarize(ctx, items, results):
            "explanation": "Programs with const declarations (external values, references to earlier consts, nested min/max/+/-; bool, u8..u64, i8..i64, usize) used as values, array sizes in parameter / let types, "
                           "repeat-literal sizes and party counts. The generator computes every constant in wrapping arithmetic of its DECLARED type. (1) compile_with_constants(P, c) vs the reference with the values substituted: "
                           "value, panic-iff and location queries over all inputs. (2) miter against the real compilation of the textually substituted twin P[c] (flag, reason, value). (3) withheld / mistyped constants: "
-                          "Err naming exactly those constants, never a panic.",
+                          "Err naming exactly those constants, never a panic. (4) literal_runs: NATIVE differential runs (not solver queries) of the real Evaluator (parse_literal per parameter, run, printed result) on one all-zero "
+                          "literal per parameter, program with constants vs substituted twin; covers const-sized arrays of const-sized arrays as parameter types.",
            **tot, "rejected_by_front_end": len(rejected), "solver": st.as_dict(),
            "bounds": "1-2 usize size constants with values in 1..4, 1-3 further constants, const expressions nested <= 2; program body as the general generator (depth 2)",
            "functions_encoded": ["compile.rs compile_with_constants / resolve_const_expr_* (run natively, result circuit encoded)", "eval.rs resolve_const_type (parameter shapes)"]}
